@@ -413,6 +413,7 @@ class Report:
         self.cov = {"states": 0, "transitions": 0, "traces_validated_against_impl": 0, "samples": [],
                     "events_validated": 0, "modules": {}, "exhaustive": False}
         self.devs = []
+        shutil.rmtree(os.path.join(EVID, "replays", pid), ignore_errors=True)   # replays belong to one run
         self.assumptions = []
         self.notes = []
 
